@@ -46,7 +46,11 @@ and `refToken` differ):
 3. implicit precedence: `token(…)` adds 1 to a rule's implicit precedence (String 2, RegExp 0), so a
    RegExp wrapped in `token` beats a bare RegExp of an earlier rule; the explorer wraps every rule
    in `token(prec(p, …))`, which keeps "String over RegExp, then rule order".
-4. only error-free parses are compared token by token; when the reference finds no token at some
+4. (context-aware lexing) every theorem is parametric in the valid-token predicate; the check
+   instantiates it with the valid set of the real parse state (from the parse table) in two-mode
+   grammars.  With merged lex states the generated lexer may return a token that is NOT valid in the
+   current state when the input cannot be continued to a sentence anyway; such steps are not judged.
+5. only error-free parses are compared token by token; when the reference finds no token at some
    position the real parser must report an error, and vice versa.
 -/
 namespace TsVerif.C14
